@@ -387,7 +387,11 @@ def run(ctx, replay_case=None):
             raise Infra("MC_LinkDest exported no cases.ndjson")
         wd = ctx.stage("mc", FAMS)
         rig.write_cfg(wd / "MC_LinkDest.cfg", constants=dict(K, Mode="mc"), invariants=MC_INVS)
-        mcfut = bg.submit(ctx.tlc, wd, "MC_LinkDest", workers=rig.NCPU, timeout=2700, coverage=not ctx.quick)
+        # no -coverage: TLC's CostModelCreator runs out of memory (6 GB) on the nested recursive operators of the
+        # scanner model before the first state; the specification has a single action (append a block), every
+        # block kind is a transition label, and non-vacuity of the model is shown by model_drift (it predicts the
+        # real bytes, the findings included)
+        mcfut = bg.submit(ctx.tlc, wd, "MC_LinkDest", workers=rig.NCPU, timeout=2700)
     # 2. replay into the real code
     ctx.cov["go_test_wall_s"] = round(go_test(ctx, cases, obs), 1)
     allobs = rig.read_ndjson(obs)
@@ -464,8 +468,7 @@ def run(ctx, replay_case=None):
                 ctx.cov["model_counterexample"] = {"invariants": r.invariant_violated, "tlc_out": str(ctx.work / "mc" / "MC_LinkDest.out")}
             else:
                 raise Infra(f"MC_LinkDest failed: {ctx.work}/mc/MC_LinkDest.out\n" + rig.tail(r.out, 30))
-        if not ctx.quick:
-            ctx.cov["actions_never_taken"] = r.coverage_zero()
+        ctx.cov["tlc_coverage_note"] = "TLC -coverage not used: its cost model cannot be built for this specification within 6 GB"
     def rw(rdir, b):
         (rdir / "case.json").write_text(json.dumps(case_of(b["obs"])))
         (rdir / "obs.json").write_text(json.dumps(b["obs"]))
